@@ -219,6 +219,38 @@ Definition hist_leak_ok (hs : list hobs) (tend cnt : Z) : bool :=
   if forallb (fun h => if ho_cls h =? 0 then all_done_by (ho_sc h) (tend - ho_start h) && (ho_start h + ho_ret h <=? tend) else true) hs
   then cnt =? 0 else true.
 
+(* ---- iterations of sync.Run ----
+   kind "sync.round": the real sync.Run driven for a few iterations
+     args  T I [ [ [ref scripts] [peer scripts] ] ... ]          (SyncTimeout, SyncInterval, one entry per iteration)
+     outs  class [ [start do sleep sleepdur [ref invoked] [ref completed] [peer invoked] [peer completed]] ... ] leak
+   all instants since the start of the bubble.  Each collection is an instance of the collector
+   model with deadline T; Run appends its local clock (answers at once) to a non-empty peer list. *)
+Definition local_clock : clock := {| c_done := Some 0; c_res := meas_zero |}.
+Definition plain_scen (T : Z) (clks : list value) (extra : list clock) : option scen :=
+  match clock_list T clks with
+  | Some cs => Some {| s_deadline := T; s_clocks := cs ++ extra; s_ms0 := repeat meas_zero (List.length (cs ++ extra)) |}
+  | None => None end.
+
+Fixpoint sync_rounds (T Iv : Z) (rounds obs : list value) (start : Z) : option (bool * bool) :=
+  match rounds, obs with
+  | VL [VL refs; VL peers] :: rounds', VL [VZ st; VZ d; VZ sl; VZ dur; VL invr; VL compr; VL invp; VL compp] :: obs' =>
+      match plain_scen T refs [], plain_scen T peers [], plain_scen T peers (match peers with [] => [] | _ => [local_clock] end),
+            getZs invr, getZs compr, getZs invp, getZs compp with
+      | Some sc_r, Some sc_p0, Some sc_p, Some invr, Some compr, Some invp, Some compp =>
+          let exp := Z.max (expected_ret sc_r) (expected_ret sc_p) in
+          let ag := (st =? start) && (d - st =? exp) && (sl =? d) && (dur =? Iv)
+                    && forallb (fun x => x =? st) invr && forallb (fun x => x =? st) invp
+                    && comps_agree sc_r (map (fun c => c - st) compr) && comps_agree sc_p0 (map (fun c => c - st) compp) in
+          let orc := C16_sync_round_ok sc_r sc_p (d - st) in
+          match sync_rounds T Iv rounds' obs' (sl + Iv) with
+          | Some (ag', orc') => Some (ag && ag', orc && orc')
+          | None => None end
+      | _, _, _, _, _, _, _ => None end
+  | [], _ => Some (true, true)
+  | _, [] => Some (true, true)
+  | _, _ => None
+  end.
+
 Definition glue_C16 (k : string) (a o : list value) : option verdict :=
   if is k "collect" then
     match a, o with
@@ -257,6 +289,15 @@ Definition glue_C16 (k : string) (a o : list value) : option verdict :=
                       (perms hs) in
             let orc := forallb (fun h => if ho_cls h =? 0 then C16_round_ok (ho_sc h) (ho_ret h) (ho_ms h) else true) hs in
             Some (relational agree (orc && C16_concurrent_ok (map gobs_of hs) && hist_leak_ok hs tend cnt && (after =? 0)))
+        | None => None end
+    | _, _ => None end
+  else if is k "sync.round" then
+    match a, o with
+    | [VZ T; VZ Iv; VL rounds], [VZ cls; VL obs; VZ after] =>
+        match sync_rounds T Iv rounds obs 0 with
+        | Some (ag, orc) =>
+            let fine := (cls =? 0) && (after =? 0) && Nat.eqb (List.length rounds) (List.length obs) in
+            Some (relational (fine && ag) (fine && orc))
         | None => None end
     | _, _ => None end
   else None.
